@@ -151,6 +151,20 @@ def helper_oracle(res: Result, rng: random.Random, fails: list, n: int):
                         missing.remove((263, 0))
                     if "proxy_info" not in declared and (284, 0) in missing:
                         missing.remove((284, 0))
+                if not typed:
+                    # answers to commands without a typed implementation never get their AVPs encoded (recorded finding);
+                    # what the helpers do for them is assign attributes -- judge those: local origin, and Session-Id /
+                    # Proxy-Info copied whenever the request object has them (each independently of the other)
+                    _none = object()
+                    bad_attrs = [a for a in ("session_id", "proxy_info")
+                                 if hasattr(req, a) and getattr(ans, a, _none) != getattr(req, a)]
+                    if getattr(ans, "origin_host", None) != idents[cur][0] or getattr(ans, "origin_realm", None) != idents[cur][1]:
+                        bad_attrs.append("origin_host/origin_realm")
+                    if bad_attrs:
+                        fails.append({"what": "answer object built by a helper for a request without typed implementation does not "
+                                              "even carry the copied values as attributes", "line": f"HELPER {who} {data.hex()}",
+                                      "real": str(bad_attrs), "answer_class": type(ans).__name__})
+                        continue
                 if missing:
                     fails.append({"what": "helper-built answer lacks Origin-Host/Origin-Realm/Session-Id/Proxy-Info",
                                   "line": f"HELPER {who} {data.hex()}", "missing": str(missing),
